@@ -32,7 +32,8 @@ func Generate(prop, family string, seed uint64, tier string) Scenario {
 			sc.Extra = map[string]int{}
 		}
 		sc.Extra["transcript"] = 1
-		sc.Extra["buf"] = 1 // this process: one shared, scribbled buffer; the child: private buffers
+		sc.Extra["buf"] = 1     // this process: one shared, scribbled buffer; the child: private buffers
+		sc.Cfg.ReuseBuf = false // the differential sets the buffer discipline itself
 		sc.Cfg.DNS = true
 		if family == "dhcp" {
 			sc.Cfg.LeaseFile = true
